@@ -110,6 +110,7 @@ template <class S> double draw_theta(const std::string& c, Rng& r) {
   if (c == "denormal") return dbl ? 4.9406564584124654e-324 * r.i(1, 1000) : 1.4012984643e-45 * r.i(1, 1000);
   if (c == "tiny") return dbl ? r.logu(1e-300, 1e-20) : r.logu(1e-36, 1e-12);
   if (c == "small") return dbl ? r.logu(1e-12, 1e-9) : r.logu(1e-7, 1e-5);
+  if (c == "sub_sw") return dbl ? r.logu(1e-9, sw * 0.999) : r.logu(1e-5, sw * 0.999);   // between "small" and the switch-over
   if (c == "below_sw") return sw * (1.0 - r.u(1e-7, 1e-3));
   if (c == "at_sw") { S s = (S)sw; int k = r.i(-1, 1); if (k < 0) s = std::nextafter(s, (S)0); if (k > 0) s = std::nextafter(s, (S)1); return (double)s; }
   if (c == "above_sw") return sw * (1.0 + r.u(1e-5, 0.07));
@@ -133,6 +134,18 @@ inline double draw_lin(const std::string& c, Rng& r) {
 
 // a tangent with rotation magnitude drawn from thc and linear coordinates from linc.
 // dir: generic | axis | par | perp  (relation between the rotation axis and the linear blocks)
+// direction codes "z0", "z1", "z2": the k-th LINEAR block of the coefficient / tangent vector is exactly zero (position,
+// velocity, time ... independently), everything else as drawn -- exact zeros in ONE block are a stratum of their own
+template <class V> static void zero_block(V& c, int rot_lo, int rot_n, const std::string& dir) {
+  if (dir.size() != 2 || dir[0] != 'z') return;
+  int want = dir[1] - '0', k = 0, n = (int)c.size(), i = 0;
+  while (i < n) {
+    if (i >= rot_lo && i < rot_lo + rot_n) { i = rot_lo + rot_n; continue; }
+    int len = 0; while (i + len < n && len < 3 && !(i + len >= rot_lo && i + len < rot_lo + rot_n)) ++len;
+    if (k == want) { for (int j = 0; j < len; ++j) c(i + j) = 0; return; }
+    ++k; i += len;
+  }
+}
 template <class G> struct Draw;
 template <class G> typename G::Tangent draw_tangent(const std::string& thc, const std::string& linc,
                                                     const std::string& dir, Rng& r) { return Draw<G>::tangent(thc, linc, dir, r); }
@@ -160,6 +173,7 @@ static typename G::Tangent tangent(const std::string& thc, const std::string& li
       }
     }
   }
+  zero_block(c, I::aoff, I::adim, dir);
   for (int i = 0; i < T::DoF; ++i) t.coeffs()(i) = (S)c(i);
   return t;
 }
@@ -188,6 +202,7 @@ static G element(const std::string& thc, const std::string& linc, const std::str
     if (neg) q = -q;
     for (int k = 0; k < 4; ++k) c(I::coff + k) = q(k);
   }
+  zero_block(c, I::coff, I::rot == COMPLEX ? 2 : I::rot == QUAT ? 4 : 0, dir);
   return G(c);
 }
 };   // struct Draw
